@@ -31,6 +31,12 @@ def specs(ctx):
             s["kwargs"]["maxiter"] = min(s["kwargs"].get("maxiter", 60), 60)
         s["cb"] = "never"
         out.append(s)
+    # tight boxes around the unconstrained minimiser: many subspace steps truncated by a bound and full steps accepted
+    for i in range(ctx.pick(500, 5000)):
+        out.append({"family": ["qp", "qp4", "rosenbrock", "qpsoft"][i % 4], "n": int(rng.integers(2, 9)),
+                    "pseed": int(rng.integers(1 << 30)), "box_kinds": ["box", "box", "lo", "up"], "box_spread": 0.3,
+                    "start": ["interior", "face"][i % 2], "cb": "never", "jac": "callable",
+                    "kwargs": {"maxcor": int(rng.choice([1, 3, 10])), "ftol": 0.0, "maxiter": 25, "maxfun": 400, "maxls": 20}})
     return out
 
 
